@@ -69,9 +69,18 @@ class RecipeGen {
 		if (c.empty()) return {};
 		return c[rng.below(c.size())];
 	}
-	size_t genWidth() { if (o.wide && rng.chance(1, 8)) return 60 + rng.below(11); return 1 + rng.below(o.maxWidth); }
+	size_t genWidth() { if (o.wide && rng.chance(1, 8)) return rng.chance(1, 3) ? 100 + rng.below(60) : 60 + rng.below(11); return 1 + rng.below(o.maxWidth); }
 	std::string constStr(size_t width) {
 		std::string s;
+		if (width > 64 && rng.chance(1, 2)) { // word-structured constant (MSB first): every 64-bit word all zeros, all ones or random
+			size_t top = width % 64 ? width % 64 : 64;
+			for (size_t done = 0; done < width; ) {
+				size_t n = done == 0 ? top : 64; unsigned wm = (unsigned) rng.below(3);
+				for (size_t i = 0; i < n; i++) s.push_back(wm == 0 ? '0' : wm == 1 ? '1' : (rng.chance(1, 2) ? '1' : '0'));
+				done += n;
+			}
+			return s;
+		}
 		unsigned mode = (unsigned) rng.below(4);
 		for (size_t i = 0; i < width; i++) {
 			char c = mode == 0 ? '0' : mode == 1 ? '1' : (rng.chance(1, 2) ? '1' : '0');
@@ -211,6 +220,7 @@ public:
 			unsigned c = (unsigned) rng.below(100);
 			if (c < 14) { // arithmetic / bitwise on equal widths
 				int a = pickVec(); int b = vecOfWidth(w(a));
+				if (w(a) > 64 && rng.chance(1, 2)) { Step k{.kind = "const", .width = w(a), .str = constStr(w(a))}; b = add(k); if (rng.chance(1, 2)) std::swap(a, b); } // wide operand with a (word-structured) constant
 				static const char *ops[] = {"add", "sub", "mul", "and", "or", "xor", "div", "rem"};
 				Step s{.kind = ops[rng.below((!o.fullyDefined && rng.chance(1, 6)) ? 8 : 6)], .width = w(a), .a = a, .b = b}; add(s);
 			} else if (c < 18) { Step s{.kind = "vnot", .width = w(vecs.back()), .a = pickVec()}; s.width = w(s.a); add(s);
@@ -275,7 +285,8 @@ public:
 struct Decoration {            // C11: names / areas / comments / attributes / extra signal copies; empty = undecorated twin
 	uint64_t seed = 0;
 	bool names = false, areas = false, comments = false, copies = false, attribs = false, taps = false;
-	bool any() const { return names || areas || comments || copies || attribs || taps; }
+	bool chains = false;          // occasionally a very long run (150..450) of consecutive named pass-through signals
+	bool any() const { return names || areas || comments || copies || attribs || taps || chains; }
 };
 
 struct Built {
@@ -417,6 +428,7 @@ inline Built build(const Recipe &r, const Decoration &deco = {}) {
 				if (deco.comments && drng.chance(1, 4)) sig.node()->setComment("comment " + std::to_string(i));
 				if (deco.attribs && drng.chance(1, 6)) { SignalAttributes a; a.maxFanout = 4 + drng.below(8); sig = attribute(sig, a); } // the attributed signal is the returned one
 				if (deco.taps && drng.chance(1, 8)) tap(sig);
+				if (deco.chains && drng.chance(1, 12)) { size_t n = 150 + drng.below(300); for (size_t c = 0; c < n; c++) { auto copy = sig; copy.setName("chain" + std::to_string(i) + "_" + std::to_string(c)); sig = copy; } }
 			};
 			if (std::holds_alternative<Bit>(vals[i])) decorate(std::get<Bit>(vals[i])); else decorate(std::get<UInt>(vals[i]));
 		}
